@@ -55,7 +55,8 @@ fn hist(args: &[String]) {
     let mut changeback = String::from("null");
     let (mut ops, mut execs, mut noexec, mut queries, mut nodes) = (0u64, 0u64, 0u64, 0u64, 0u64);
     let mut kinds: HashMap<&'static str, u64> = HashMap::new();
-    let mut runtime = rt(if cfg == "mem" { 1 } else { 4 });
+    let threads: usize = std::env::var("QV_THREADS").ok().and_then(|s| s.parse().ok()).unwrap_or(1);
+    let mut runtime = rt(threads);
     let mut hangs: Vec<String> = Vec::new();
     let only: Option<u64> = std::env::var("QV_ONLY").ok().and_then(|s| s.parse().ok());
     for k in 0..n {
@@ -69,7 +70,7 @@ fn hist(args: &[String]) {
             Err(_) => {
                 hangs.push(format!("{{\"violation\":\"no progress within 20 s (hang)\",\"scenario\":{:?}}}", scenario_coq(&s)));
                 // the runtime still holds the stuck tasks: abandon it
-                std::mem::forget(std::mem::replace(&mut runtime, rt(if cfg == "mem" { 1 } else { 4 })));
+                std::mem::forget(std::mem::replace(&mut runtime, rt(threads)));
                 continue;
             }
         };
